@@ -823,6 +823,56 @@ def rule_r26(text, rules, specs):
             rules.append("R26")
     return text
 
+def rule_r27(text, rules):
+    """M.entry(K).and_modify(|X| BODY).or_insert(V);   (a whole statement; M a path of identifiers, X one identifier, optionally typed)
+         ->  if M.contains_key(&K) { let mut __eN = M.remove(&K).unwrap(); { let X = &mut __eN; BODY; } M.insert(K, __eN); } else { M.insert(K, V); };
+    The entry API updates the value under K in place if there is one and inserts V otherwise.  The rewrite takes the value out, updates
+    it and puts it back: the MAP (what is stored under which key) is the same afterwards; what differs is not observable through a
+    HashMap (no iteration order is promised) - and V is built only when it is needed (V is an allocation without other effects at the
+    sites this is used for; K is a Copy value and is read twice).  Verus has no specification of the entry API or of get_mut."""
+    k = 0
+    while True:
+        toks, st = _sig_with_index(text)
+        hit = None
+        for i in range(len(st) - 12):
+            if [y.text for y in st[i:i + 3]] != [".", "entry", "("]: continue
+            r = i - 1
+            if not (st[r].kind == "ident"): continue
+            while r - 2 >= 0 and st[r - 1].text == "." and st[r - 2].kind == "ident": r -= 2
+            if not _stmt_start(st, r): continue
+            ko = i + 2; kc = match_close(st, ko)
+            if [y.text for y in st[kc + 1:kc + 4]] != [".", "and_modify", "("]: continue
+            ao = kc + 3; ac = match_close(st, ao)
+            if st[ao + 1].text != "|" or st[ao + 2].kind != "ident": continue
+            # closure parameter, optionally `: TYPE`
+            p = ao + 3; d = 0
+            while not (st[p].text == "|" and d == 0):
+                if st[p].text in ("<", "(", "["): d += 1
+                elif st[p].text in (">", ")", "]"): d -= 1
+                p += 1
+            xname = st[ao + 2].text
+            xtype = text[st[ao + 4].start:st[p - 1].end] if st[ao + 3].text == ":" else None
+            if [y.text for y in st[ac + 1:ac + 4]] != [".", "or_insert", "("]: continue
+            oo = ac + 3; oc = match_close(st, oo)
+            if st[oc + 1].text != ";": continue
+            hit = (r, i, ko, kc, ao, ac, p, oo, oc, xname, xtype); break
+        if hit is None: return text
+        r, i, ko, kc, ao, ac, p, oo, oc, xname, xtype = hit
+        k += 1
+        M = text[st[r].start:st[i - 1].end]
+        K = text[st[ko + 1].start:st[kc - 1].end]
+        V = text[st[oo + 1].start:st[oc - 1].end]
+        body = text[st[p + 1].start:st[ac - 1].end]
+        if st[p + 1].text == "{" and match_close(st, p + 1) == ac - 1:
+            body = body[1:-1]
+        else:
+            body = body + ";"
+        ev = "__e%d" % k
+        let = "let %s%s = &mut %s;" % (xname, (": " + xtype) if xtype else "", ev)
+        new = "if %s.contains_key(&%s) { let mut %s = %s.remove(&%s).unwrap(); { %s %s } %s.insert(%s, %s); } else { %s.insert(%s, %s); };" % (M, K, ev, M, K, let, body, M, K, ev, M, K, V)
+        text = text[:st[r].start] + new + text[st[oc + 1].end:]
+        rules.append("R27")
+
 def rule_r18(text, rules, specs):
     """for PAT in E { B }  ->  { let mut IT = INTO(E); loop { match NEXT(&mut IT) { None => { break; } Some(PAT) => { B } } } }
     - the definition of `for` in the Rust reference - for iterators that have no Verus specification (wasmparser's section
@@ -1201,6 +1251,7 @@ def extract_item(path, selector, opts, directives, findings_open):
         text = rule_r22(text, rules)
         text = rule_r24(text, rules)
         text = rule_r25(text, rules)
+        text = rule_r27(text, rules)
         if directives.get("encodecalls"):
             text = rule_r26(text, rules, directives["encodecalls"])
         if directives.get("fornext") and it.kind == "fn":
